@@ -31,6 +31,9 @@ CLASSES = [
     ("emb", dict(leaf_kinds=["emb"], weight_pz=["id"]), ["sum-product", "lse-sum"]),
     ("cat", dict(leaf_kinds=["cat_logits", "cat_softmax", "emb"], weight_pz=["id", "softmax"], units=[1, 2]), ["sum-product", "lse-sum"]),
     ("poly", dict(leaf_kinds=["poly"], weight_pz=["id"], signed=True), ["sum-product"]),
+    # Gaussians incl. unnormalised ones with a learnable log-partition: their integrals are parameter graphs
+    ("gauss", dict(leaf_kinds=["gauss", "gauss_lp", "gauss_lp", "cat_softmax"], weight_pz=["id", "softmax"], units=[1, 2]),
+     ["sum-product", "lse-sum"]),
 ]
 
 
